@@ -40,6 +40,7 @@ C02_THEOREMS = [
     "dopri5_stage_eqs", "dopri5_new_state", "dopri5_stage_buffers", "dopri5_err_eq",
     "dop853_stage_eqs", "dop853_stage_buffers", "dop853_new_state",
     "BTree.mem_treesUpTo", "BTree.forall_of_all",
+    "radau_constants", "radau_order5", "radau_not_order6",
 ]
 
 
@@ -106,7 +107,7 @@ def c02(c):
         {"theorem": "dopri5_stage_eqs", "statement": "(Gen.Dopri5.stages (openF Kc) y h k1 x).calls = #[rkArg dopri5Tab x h y (kOf k1 Kc) 1, …, 6]  for every ordered field, n, Kc, y, k1, x, h"},
     ]
     c.partial = ["Butcher's theorem (tree conditions ⇔ local error O(h^{p+1}) for every smooth f) is cited, not formalised",
-                 "Radau IIA order/Padé statements are not yet modelled (Radau's order is only observed by the monitor)",
+                 "Radau: the theorems are about the tableau the code's constants encode (eigen-decomposition, nodes, Padé polynomials, tree conditions to 1e-14); that the simplified Newton iteration converges to the stage equations is run-time behaviour (order-probe, X-radau)",
                  "accepted-step count ~ tol^(-1/q): the controller exponent is checked in C01; the asymptotic count is not a theorem"]
 
 
